@@ -234,6 +234,43 @@ def findCallbacks (c : DispCfg) (args0 : List Str) : Except GErr (List Str × Li
           | _ => .ok (maxL, cbs)
     | _ => .ok (maxL, cbs)
 
+/-! ### `Owner.defaultplugin` -/
+
+inductive DpReply where
+  | ok                      -- replySuccess
+  | err                     -- an error reply (unknown command, not a command of that plugin, nothing set)
+  | value (plugin : Str)    -- the current default plugin
+deriving DecidableEq, Repr
+
+/-- `registerDefaultPlugin(command, plugin)`: register the registry node (keeps an existing node) and
+then `.set(plugin)` — so that the node holds `plugin` whether it existed before or not -/
+def setDefault : List (Str × Str) → Str → Str → List (Str × Str)
+  | [], k, v => [(k, v)]
+  | (k', v') :: rest, k, v => if k' = k then (k, v) :: rest else (k', v') :: setDefault rest k v
+
+/-- `Owner.defaultplugin [--remove] <command> [<plugin>]` (`command` through the `commandName`
+converter; `plugin` = (class name, command methods) of the named plugin) -/
+def ownerDefaultPlugin (c : DispCfg) (remove : Bool) (command : Str) (plugin : Option (Str × List Str)) :
+    DispCfg × DpReply :=
+  if remove then
+    match c.defaults.lookup command with
+    | some _ => ({ c with defaults := c.defaults.filter fun e => e.1 ≠ command }, .ok)
+    | none => (c, .err)
+  else
+    match findCallbacks c [command] with
+    | .error _ => (c, .err)
+    | .ok (_, []) => (c, .err)                                   -- errorInvalid('command', command)
+    | .ok _ =>
+      match plugin with
+      | some (name, methods) =>
+        if isCmdOf c.disabled name methods command then
+          ({ c with defaults := setDefault c.defaults command name }, .ok)
+        else (c, .err)
+      | none =>
+        match c.defaults.lookup command with
+        | some v => (c, .value v)
+        | none => (c, .err)
+
 inductive Dispatch where
   | run (idx : Nat) (plugin : Str) (command rest : List Str)
   | none                                              -- no plugin: `_callInvalidCommands`
